@@ -86,6 +86,8 @@ type ChanObj struct {
 	recvWaiting int
 	Timer       bool
 	Fires       int // remaining times a timer/ticker channel may deliver
+	Next        *Term // next firing instant on the engine clock (exact mode)
+	Period      *Term // nil for one-shot timers
 	sent, taken int
 }
 
